@@ -187,3 +187,8 @@ func firstLineOf(s string) string {
 }
 
 type jsonRaw = json.RawMessage
+
+// coinsEq compares coin sets without sdk.Coins.IsEqual (which panics on differing denominations).
+func coinsEq(a, b sdk.Coins) bool {
+	return sdk.NewCoins(a...).String() == sdk.NewCoins(b...).String()
+}
